@@ -285,7 +285,8 @@ def _shapes(sub, codes):
         sh[o["outs"][0]] = [max(ns), 2, max(ws), 4]
       for t in o["ins"]:
         if role[t] == "c":
-          want = [1, 2, min(s[2] for s in ash) if k in ("EW2", "UNSUP2") else ash[0][2], 4]
+          # (a concatenation along axis 0 needs the other dimensions of its first activation operand, whatever they are)
+          want = [1, 2, min(s[2] for s in ash), 4] if k in ("EW2", "UNSUP2") else [1] + list(ash[0][1:])
           if t in sh and sh[t] != want:
             raise Unrealisable("constant used under two shapes")
           sh[t] = want
